@@ -286,6 +286,9 @@ def run(pid, tier, seed):
                 rep.known("KF-1", "rewrite rule NthRoot(NthPower(u,m),n) => NthPower(NthRoot(u,n),m) with n and m even changes the value / shrinks the domain")
             else:
                 tags_here.append(("C08.normalize_unsound", {**desc, "normalized": J.show(row["norm"])}))
+        counts["identity_" + v["idv"]] = counts.get("identity_" + v["idv"], 0) + 1
+        if v["idv"] == "differs":
+            tags_here.append(("C08.normalize_changes_value_on_identity_grid", {**desc, "normalized": J.show(row["norm"])}))
         for clause, d in tags_here:
             if clause[:3] == pid:
                 rep.violation(clause, d)
